@@ -1,41 +1,63 @@
 #!/bin/bash
 # usage: seedcheck.sh <PROP> <variant> [extra props to run...]
-# Confirms a red-team change in a scratch worktree of /repo's HEAD and runs our quick check(s) against it.
+# Confirms a stored red-team change (/verif/seeded/<PROP>/<variant>) in a scratch worktree of /repo's HEAD:
+# demo fails with / passes without the change, the pinned suite still passes with it, and runs our quick
+# check(s) against the changed tree (VERIF_REPO) with evidence/replays redirected (VERIF_OUT).
+# Writes /verif/seeded/<PROP>/<variant>/confirmed.json. Nothing is left in /repo; the worktree is removed.
 P=$1; V=$2; shift; shift
-SRC=/tmp/seed-$P/$V
+SRC=/verif/seeded/$P/$V
 WT=/tmp/sc-$P$V
-OUT=/tmp/seed-$P/$V/confirm
-mkdir -p $OUT
+OUT=/dev/shm/sc-out/$P$V
+rm -rf $OUT; mkdir -p $OUT
 git -C /repo worktree remove --force $WT 2>/dev/null; rm -rf $WT
 git -C /repo worktree add -q $WT HEAD || exit 3
 if ! git -C $WT apply --check $SRC/patch.diff 2>$OUT/apply.err; then
-  if git -C $WT apply --3way $SRC/patch.diff 2>>$OUT/apply.err; then echo "APPLY: needed 3-way"; git -C $WT diff HEAD > $OUT/patch_rebased.diff; git -C $WT reset -q --hard HEAD; git -C $WT apply $OUT/patch_rebased.diff; else echo "APPLY: FAILED"; cat $OUT/apply.err | head -5; git -C /repo worktree remove --force $WT; exit 4; fi
-else
-  git -C $WT apply $SRC/patch.diff; echo "APPLY: clean"
+  echo "APPLY: FAILED"; head -5 $OUT/apply.err; git -C /repo worktree remove --force $WT; exit 4
 fi
+git -C $WT apply $SRC/patch.diff; echo "APPLY: clean"
 demo=$(ls $SRC/test_demo*.py 2>/dev/null | head -1)
-run_demo() { (cd $WT && timeout 900 /venv/bin/python -m pytest -q -p no:cacheprovider -c $SRC/pytest.ini --rootdir $WT $demo 2>&1 | tail -3) ; }
-if [ ! -f $SRC/pytest.ini ]; then run_demo() { (cd $WT && timeout 900 /venv/bin/python -m pytest -q -p no:cacheprovider $demo 2>&1 | tail -3); }; fi
-echo "--- demo WITH change:"; run_demo | tail -1
-git -C $WT diff > $OUT/applied.diff
+if [ -f $SRC/pytest.ini ]; then CFG="-c $SRC/pytest.ini"; else CFG=""; fi
+run_demo() { (cd $WT && timeout 900 /venv/bin/python -m pytest -q -p no:cacheprovider $CFG --rootdir $WT $demo 2>&1 | tail -1) ; }
+DW=$(run_demo); echo "--- demo WITH change: $DW"
 git -C $WT checkout -- .
-echo "--- demo WITHOUT change:"; run_demo | tail -1
-git -C $WT apply $OUT/applied.diff
-echo "--- baseline WITH change:"
-(cd $WT && timeout 1800 /venv/bin/python -m pytest -q -p no:cacheprovider --timeout=900 --continue-on-collection-errors --junitxml=$OUT/junit.xml > $OUT/pytest.log 2>&1; /venv/bin/python - <<P
+DO=$(run_demo); echo "--- demo WITHOUT change: $DO"
+git -C $WT apply $SRC/patch.diff
+(cd $WT && timeout 1800 /venv/bin/python -m pytest -q -p no:cacheprovider --timeout=900 --continue-on-collection-errors --junitxml=$OUT/junit.xml > $OUT/pytest.log 2>&1)
+BL=$(/venv/bin/python - <<P
 import json, xml.etree.ElementTree as ET
 base=set(json.load(open('/root/.vp/BASELINE.json'))['stable_pass'])
 ok=set()
 for tc in ET.parse('$OUT/junit.xml').iter('testcase'):
     if not any(ch.tag in ('failure','error','skipped') for ch in tc): ok.add(f"{tc.get('classname')}::{tc.get('name')}")
-print('baseline',len(base),'passing',len(base&ok),'missing',sorted(base-ok)[:5])
+print(f"{len(base&ok)}/{len(base)}")
 P
 )
+echo "--- baseline WITH change: $BL"
+: > $OUT/checks.txt
 for prop in $P "$@"; do
   echo "--- our quick check $prop against the change:"
-  cp /verif/evidence/$prop.json /dev/shm/ev-sc-$prop.json 2>/dev/null
-  (cd /verif && VERIF_REPO=$WT timeout 2400 /venv/bin/python -m sim check $prop --tier quick 2>&1 | grep -v "^KNOWN" | cut -c1-260 | tail -6)
-  cp /dev/shm/ev-sc-$prop.json /verif/evidence/$prop.json 2>/dev/null; rm -f /dev/shm/ev-sc-$prop.json
-  mkdir -p $OUT/replays; mv /verif/replays/$prop-* $OUT/replays/ 2>/dev/null
+  (cd /verif && VERIF_REPO=$WT VERIF_OUT=$OUT timeout 2400 /venv/bin/python -m sim check $prop --tier quick > $OUT/check-$prop.log 2>&1; echo "$prop exit=$?" >> $OUT/checks.txt)
+  grep -v "^KNOWN" $OUT/check-$prop.log | cut -c1-260 | tail -4
 done
 git -C /repo worktree remove --force $WT
+/venv/bin/python - <<P
+import json, re, subprocess, datetime
+out = {"property": "$P", "variant": "$V", "repo_head": subprocess.check_output(["git","-C","/repo","log","--format=%h","-1"]).decode().strip(),
+       "verif_head": subprocess.check_output(["git","-C","/verif","log","--format=%h","-1"]).decode().strip(),
+       "patch_applies_cleanly": True, "demo_with_change": """$DW""".strip(), "demo_without_change": """$DO""".strip(),
+       "pinned_suite_with_change": "$BL", "checks": {}}
+for line in open("$OUT/checks.txt"):
+    prop, ex = line.split(); ex = int(ex.split("=")[1])
+    log = open(f"$OUT/check-{prop}.log").read()
+    classes = sorted(set(re.findall(r"class=(\S+)", log)))
+    summ = [l for l in log.splitlines() if l.startswith(prop + " tier=")]
+    out["checks"][prop] = {"command": f"VERIF_REPO=<worktree with the change> python -m sim check {prop} --tier quick", "exit": ex,
+                           "caught": ex == 1 and "VIOLATION property=" in log or (ex == 1 and bool(classes)),
+                           "violation_classes": classes, "summary": summ[-1] if summ else None}
+out["confirmed"] = ("failed" in out["demo_with_change"] and "passed" in out["demo_without_change"] and "failed" not in out["demo_without_change"]
+                    and out["pinned_suite_with_change"].split("/")[0] == out["pinned_suite_with_change"].split("/")[1])
+out["caught_by"] = sorted(p for p, c in out["checks"].items() if c["caught"])
+json.dump(out, open("$SRC/confirmed.json", "w"), indent=1, sort_keys=True)
+print("CONFIRMED" if out["confirmed"] else "NOT-CONFIRMED", "caught_by=", out["caught_by"])
+P
+rm -rf $OUT
